@@ -15,7 +15,7 @@ Keys: requires / ensures / decreases / prologue / ret <name> / attr <text> /
       rename `path` => `name`         (R2: module-path flattening, every occurrence)
       insert_after `anchor` => `text` / insert_before `anchor` => `text`   (ghost insertions)
       drop `text`                    (R7: compile-time-only macro statements)
-      noextract-body                 (keep signature, body replaced: item is left external_body)
+      bodyless                       (keep only the signature; body replaced by unimplemented!(): for external_body items)
 
 Everything not produced by an `extract` block is hand-written ghost text (spec fns, lemmas, assumed
 external specs). What extraction drops/rewrites (R1-R8) is documented in DESIGN.md §1.2 and listed
@@ -289,6 +289,11 @@ def process_fn(text, block, applied, canary=False):
     if body_open is None:
         raise R.LostAnchor("%s: no body" % (block.path,))
     header, body = text[:body_open], text[body_open:]
+    if any(k == "bodyless" for k, _ in d):
+        # only the SIGNATURE is taken from the source (the item is `external_body`: its contract is
+        # discharged elsewhere); the body is not needed and may use items the unit does not carry
+        body = "{\n    unimplemented!()\n}"
+        applied.add("body dropped (signature only; external_body)")
     mh = m[:body_open]
     # R3 return type naming
     ret_name = "r"
